@@ -9,7 +9,7 @@ class C15(Prop):
     pid = "C15"
     title = "Debug, TLS, load-config, exception, security directories are decoded as stored"
     thm_modules = ["PeliteModel.Thm.C15"]
-    gens = [gen_dirs.gen_dirs_corpus, gen_dirs.gen_dirs, gen_dirs.gen_dirs_cv_bounds, gen_dirs.gen_dirs_fuzz]
+    gens = [gen_dirs.gen_dirs_corpus, gen_dirs.gen_dirs_examples, gen_dirs.gen_dirs, gen_dirs.gen_dirs_cv_bounds, gen_dirs.gen_dirs_fuzz]
 
     def oracle(self, op, impl, model, spec):
         a = op.split(" ")
